@@ -139,6 +139,56 @@ class StoreValues(Scenario):
             return "ok"
 
 
+class StoreValueMap(Scenario):
+    """reference value map with symbolic keys written to a stored type and read by a fresh Workspace"""
+    pid = "C08"
+    include_io = True
+
+    def run(self, cx):
+        if self.backend == "real":
+            return super().run(cx)
+        with h5shim.h5_on():
+            return super().run(cx)
+
+    def body(self, cx):
+        from geoh5py.workspace import Workspace
+        from geoh5py.objects import Points
+        nk = self.params["keys"]
+        h5shim.reset()
+        ws = Workspace()
+        pts = Points.create(ws, vertices=real_np.zeros((2, 3)))
+        d = pts.add_data({"rd": {"values": real_np.array([1, 2], dtype="int32"), "type": "referenced", "value_map": {1: "a", 2: "b"}}})
+        labels = ["alpha", "b\u00e9ta", "\u03b3", "d"][:nk]
+        with self.engine(cx) as X:
+            keys = [cx.int(f"k{i}", -1, 6) for i in range(nk)]
+            for i in range(nk):
+                for j in range(i + 1, nk):
+                    cx.assume(Not(eq(keys[i], keys[j])) if cx.mode == "sym" else keys[i] != keys[j])
+            ck = [int(k) for k in keys]         # dictionary keys must be concrete: one path per feasible key tuple
+            vm = {k: lb for k, lb in zip(ck, labels)}
+            try:
+                d.entity_type.value_map = dict(vm)
+            except Exception as e:  # noqa: BLE001
+                cx.prove(any(k < 0 for k in ck) or any(k == 0 for k in ck),
+                         "a value map is refused only for a negative key or a key 0 that is not 'Unknown'", "value map rules")
+                return f"raised {type(e).__name__}"
+            cx.prove(all(k >= 0 for k in ck) and all(k != 0 for k in ck), "negative keys and a relabelled key 0 are refused",
+                     "value map rules")
+            live = dict(d.entity_type.value_map.map)
+            cx.prove(live.get(0) == "Unknown" and all(live.get(k) == lb for k, lb in vm.items()),
+                     "key 0 is reserved for 'Unknown' and every key keeps its label (in memory)", "value map rules")
+            ws.close()
+            ws2 = Workspace(ws.h5file)
+            d2 = [e for e in ws2.data if e.uid == d.uid]
+            cx.prove(len(d2) == 1 and d2[0].value_map is not None, "fresh reader finds the value map", "value map read back")
+            if len(d2) == 1 and d2[0].value_map is not None:
+                back = {int(k): (v.decode() if isinstance(v, bytes) else v) for k, v in dict(d2[0].value_map.map).items()}
+                cx.prove(back == live, "value map read back == value map written (keys keep their labels, any Unicode)",
+                         "value map read back")
+            ws2.close()
+            return "ok"
+
+
 def _integral(v):
     if is_sym(v):
         import z3
@@ -161,7 +211,8 @@ def scenarios(tier, seed):
               StoreValues(kind="integer", dtype="float64", pattern="+"),
               StoreValues(kind="boolean", dtype="int64", pattern="ss"),
               StoreValues(kind="boolean", dtype="bool", pattern="ss"),
-              StoreValues(kind="boolean", dtype="float64", pattern="ss")]
+              StoreValues(kind="boolean", dtype="float64", pattern="ss"),
+              StoreValueMap(keys=2)]
     else:
         for dt in ("float64", "float32"):
             for pat in ("sns", "+s-", "nnn", "sss", "s"):
@@ -173,7 +224,7 @@ def scenarios(tier, seed):
             S.append(StoreValues(kind="boolean", dtype=dt, pattern="ss"))
         for pat in ("sn", "+", "-", "s+", "sss", "ns-"):
             S.append(StoreValues(kind="integer", dtype="float64", pattern=pat))
-        S += [StoreValues(kind="boolean", dtype="bool", pattern="sss")]
+        S += [StoreValues(kind="boolean", dtype="bool", pattern="sss"), StoreValueMap(keys=2), StoreValueMap(keys=3)]
     return S
 
 
@@ -190,10 +241,10 @@ def main(tier, seed):
             "not modelled for them); everything concrete goes through real h5py",
             "the documented exception (a float exactly equal to the float no-data sentinel) is excluded by precondition",
         ],
-        outside=["text / comment / file / blob values and value maps (strings are not symbolic in this engine)",
+        outside=["text / comment / file / blob values (strings are not symbolic in this engine; value-map labels are fixed Unicode strings)",
                  "float rounding; float32 input arrays for integer data (boundary values are not representable in float32); boolean data given float arrays", "float32 storage of concatenated data", "arrays longer than 3", "datetime"],
         bounds={"quick": "arrays of 1-3 elements, each a symbolic finite value / NaN / +inf / -inf; float, integer and boolean "
                          "data; input dtypes float64, int64, int32, uint32, bool; magnitudes unbounded within the dtype",
                 "thorough": "all of numpy's integer dtypes and float32/float64 as input dtype for each data kind"}[tier],
-        expected_outcomes={"StoreValues": {"ok"}},
+        expected_outcomes={"StoreValues": {"ok"}, "StoreValueMap": {"ok"}},
     )
